@@ -276,11 +276,46 @@ def mhp_ellipse_t(q):
     return _mhp_ellipse, jac_ellipse(q), constr_ellipse(q)
 
 
+def constr_wavy(q):
+    # strongly curved: q1 = 0.6 sin(3 q0)
+    return np.array([q[1] - 0.6 * np.sin(3 * q[0])])
+
+
+def jac_wavy(q):
+    j = np.zeros((1, q.size))
+    j[0, 0] = -1.8 * np.cos(3 * q[0])
+    j[0, 1] = 1.0
+    return j
+
+
+def jac_wavy_t(q):
+    return jac_wavy(q), constr_wavy(q)
+
+
+class _MhpWavy:
+    def __init__(self, q0):
+        self.q0 = q0
+
+    def __call__(self, m):
+        out = np.zeros(m.shape[1])
+        out[0] = m[0, 0] * 5.4 * np.sin(3 * self.q0)
+        return out
+
+
+def mhp_wavy(q):
+    return _MhpWavy(float(q[0]))
+
+
+def mhp_wavy_t(q):
+    return mhp_wavy(q), jac_wavy(q), constr_wavy(q)
+
+
 CONSTRAINTS = {
     "sphere": (constr_sphere, jac_sphere, jac_sphere_t, mhp_sphere, mhp_sphere_t),
     "two": (constr_two, jac_two, jac_two_t, mhp_two, mhp_two_t),
     "lin": (constr_lin, jac_lin, jac_lin_t, mhp_lin, mhp_lin_t),
     "ellipse": (constr_ellipse, jac_ellipse, jac_ellipse_t, mhp_ellipse, mhp_ellipse_t),
+    "wavy": (constr_wavy, jac_wavy, jac_wavy_t, mhp_wavy, mhp_wavy_t),
 }
 
 
@@ -305,6 +340,11 @@ def on_manifold_start(name: str, dim: int, variant: int = 0):
         q[0] = 0.5
         if variant % 3 == 1:
             q[0], q[1] = 0.1, 0.2
+        return q
+    if name == "wavy":
+        q = np.array([0.3, 0.0, -0.4, 0.2, 0.1, 0.5])[:dim] * (1 if variant % 2 == 0 else -1)
+        q[0] = [0.2, -0.7, 1.1][variant % 3]
+        q[1] = 0.6 * np.sin(3 * q[0])
         return q
     if name == "ellipse":
         base = np.array([0.5, 0.4, 0.7, 0.2, 0.1, 0.3])[:dim] * (1 if variant % 2 == 0 else -1)
@@ -530,7 +570,7 @@ def random_system_spec(rng, *, kinds=SYSTEM_KINDS, dims=(1, 2, 3), offset=0.0, s
     dim = rng.choice(list(dims))
     spec = {"kind": kind, "tuple_conv": rng.random() < 0.5}
     if kind in ("con", "gcon"):
-        cname = rng.choice(["sphere", "two", "lin", "ellipse"])
+        cname = rng.choice(["sphere", "two", "lin", "ellipse", "wavy"])
         dim = max(dim, 3) if cname in ("two", "lin") else max(dim, 2)
         spec["constraint"] = cname
         spec["hausdorff"] = rng.random() < 0.5
